@@ -272,3 +272,24 @@ Proof.
   - cbn. constructor; [intros [H|[]]; discriminate|constructor; [intros []|constructor]].
   - cbn. intros H. inversion H as [|? ? Hnin _]; subst. apply Hnin. left; reflexivity.
 Qed.
+
+(* ---- node-id lease: with a heartbeat every p <= ttl seconds the slot marker never lapses while the holder lives ---- *)
+Lemma lease_inv p n : 0 < p -> let s := lease true p n in snd s <= fst s /\ fst s - snd s < p.
+Proof.
+  intros Hp. induction n as [|k IH]; cbn [lease]; [cbn; lia|].
+  destruct (lease true p k) as [now last]. cbn [fst snd] in *. destruct IH as [H1 H2].
+  cbn [andb]. destruct (Nat.eqb_spec (S now - last) p) as [E|E]; cbn [fst snd]; lia.
+Qed.
+
+Theorem lease_never_lapses p ttl n : 0 < p -> p <= ttl -> marker_live ttl (lease true p n) = true.
+Proof.
+  intros Hp Hle. pose proof (lease_inv p n Hp) as [H1 H2]. unfold marker_live.
+  apply Nat.ltb_lt. lia.
+Qed.
+
+Lemma lease_without_heartbeat_lapses ttl : marker_live ttl (lease false 30 ttl) = false.
+Proof.
+  assert (H : forall n, lease false 30 n = (n, 0)).
+  { induction n as [|k IH]; [reflexivity|]. cbn [lease]. rewrite IH. reflexivity. }
+  rewrite H. unfold marker_live. cbn [fst snd]. apply Nat.ltb_ge. lia.
+Qed.
